@@ -963,7 +963,7 @@ fn run(a: &Args) {
                 None
             }
             // what C06 demands of the shape of the source (the Lean driver prints what T1 read from it)
-            ["k-shape"] => Some("none-arm-polls-stop=1 run-breaks-on-stopping=1 stop-sends-eagerly=1 await-guard=graceful mux-hands-on-cmd-rx=1 default-timeout=30 default-conns=25600 builder-starts-from-default=1 stop-drops-undelivered=1 join-waits-for-all=1".into()),
+            ["k-shape"] => Some("none-arm-polls-stop=1 run-breaks-on-stopping=1 stop-sends-eagerly=1 await-guard=graceful mux-hands-on-cmd-rx=1 default-timeout=30 default-conns=25600 builder-starts-from-default=1 stop-drops-undelivered=1 join-waits-for-all=1 system-stop-if-any=1".into()),
             ["k-total", v] => Some(match num(v) {
                 Some(v) => match catch(|| actix_server::verif::kernel_counter_total(v)) {
                     Ok(t) => t.to_string(),
@@ -1153,13 +1153,13 @@ mod srvlevel {
     }
 
     fn server(workers: usize, timeout: Option<u64>, signals: bool, served: Arc<AtomicUsize>, nonce: [u8; 8]) -> std::io::Result<(actix_server::Server, std::net::SocketAddr)> {
-        match server_on(Lst::Tcp, workers, timeout, signals, served, nonce)? {
+        match server_on(Lst::Tcp, workers, timeout, signals, false, served, nonce)? {
             (srv, Target::Tcp(a)) => Ok((srv, a)),
             _ => unreachable!(),
         }
     }
 
-    fn server_on(lst: Lst, workers: usize, timeout: Option<u64>, signals: bool, served: Arc<AtomicUsize>, nonce: [u8; 8]) -> std::io::Result<(actix_server::Server, Target)> {
+    fn server_on(lst: Lst, workers: usize, timeout: Option<u64>, signals: bool, sysexit: bool, served: Arc<AtomicUsize>, nonce: [u8; 8]) -> std::io::Result<(actix_server::Server, Target)> {
         use actix_service::fn_service;
         let mut b = actix_server::Server::build().workers(workers);
         if let Some(t) = timeout {
@@ -1167,6 +1167,9 @@ mod srvlevel {
         }
         if !signals {
             b = b.disable_signals();
+        }
+        if sysexit {
+            b = b.system_exit();
         }
         let uds_path = || {
             static SEQ: AtomicUsize = AtomicUsize::new(0);
@@ -1218,7 +1221,7 @@ mod srvlevel {
     where
         F: FnOnce() -> std::io::Result<(actix_server::Server, A)> + Send + 'static,
     {
-        let (h, a, drx, ktx) = host_server_droppable(build)?;
+        let (h, a, drx, ktx) = host_server_droppable(build, false)?;
         std::mem::forget(ktx); // never dropped, never fired: the Server future is awaited to its end
         Ok((h, a, drx))
     }
@@ -1226,7 +1229,7 @@ mod srvlevel {
     /// … and a sender that makes the hosting thread DROP the `Server` future (unresolved, no stop): the accept thread and the
     /// workers go on without a command loop (what a `select!` that the server future loses does to an application)
     #[allow(clippy::type_complexity)]
-    fn host_server_droppable<F, A: Send + 'static>(build: F) -> std::io::Result<(actix_server::ServerHandle, A, tokio::sync::oneshot::Receiver<()>, tokio::sync::oneshot::Sender<()>)>
+    fn host_server_droppable<F, A: Send + 'static>(build: F, under_system: bool) -> std::io::Result<(actix_server::ServerHandle, A, tokio::sync::oneshot::Receiver<()>, tokio::sync::oneshot::Sender<()>)>
     where
         F: FnOnce() -> std::io::Result<(actix_server::Server, A)> + Send + 'static,
     {
@@ -1234,8 +1237,9 @@ mod srvlevel {
         let (dtx, drx) = tokio::sync::oneshot::channel();
         let (ktx, krx) = tokio::sync::oneshot::channel::<()>();
         std::thread::spawn(move || {
-            let rt = tokio::runtime::Builder::new_current_thread().enable_all().build().unwrap();
-            rt.block_on(async move {
+            // a plain Tokio runtime (no actix System, no Arbiter: the workers run on bare threads) — or an actix System
+            // (the workers run on Arbiters)
+            let fut = async move {
                 match build() {
                     Ok((srv, addr)) => {
                         let _ = tx.send(Ok((srv.handle(), addr)));
@@ -1261,13 +1265,26 @@ mod srvlevel {
                         let _ = tx.send(Err(e));
                     }
                 }
-            });
+            };
+            if under_system {
+                actix_rt::System::new().block_on(fut);
+            } else {
+                let rt = tokio::runtime::Builder::new_current_thread().enable_all().build().unwrap();
+                rt.block_on(fut);
+            }
         });
         match rx.recv_timeout(Duration::from_secs(20)) {
             Ok(Ok((h, a))) => Ok((h, a, drx, ktx)),
             Ok(Err(e)) => Err(e),
             Err(_) => Err(std::io::Error::new(std::io::ErrorKind::TimedOut, "server did not start")),
         }
+    }
+
+    fn host_server_droppable_sys<F, A: Send + 'static>(under_system: bool, build: F) -> std::io::Result<(actix_server::ServerHandle, A, tokio::sync::oneshot::Receiver<()>, tokio::sync::oneshot::Sender<()>)>
+    where
+        F: FnOnce() -> std::io::Result<(actix_server::Server, A)> + Send + 'static,
+    {
+        host_server_droppable(build, under_system)
     }
 
     /// `stop(false)` at the end of a scenario, bounded (a broken server may never answer)
@@ -1306,6 +1323,7 @@ mod srvlevel {
         gap2: u64,
         late: Option<bool>, // `late=g|f`: one more stop() after everything has completed (its future must resolve, too)
         lst: Lst,
+        sysexit: bool, // `sysexit=1`: the builder's system_exit() (stop the actix System after the shutdown — there is none here)
         dropfut: bool,
         paused: bool,
     }
@@ -1357,7 +1375,12 @@ mod srvlevel {
             Some("f") => Some(false),
             _ => return None,
         };
-        Some(Scn { workers, timeout, graceful, holds, second, gap2, late, lst, dropfut: kv(ws, "drop") == Some("1"), paused: kv(ws, "paused") == Some("1") })
+        let sysexit = match kv(ws, "sysexit") {
+            None => false,
+            Some("1") => true,
+            _ => return None,
+        };
+        Some(Scn { workers, timeout, graceful, holds, second, gap2, late, lst, sysexit, dropfut: kv(ws, "drop") == Some("1"), paused: kv(ws, "paused") == Some("1") })
     }
 
     async fn scenario(sc: &Scn) -> Outcome {
@@ -1372,8 +1395,8 @@ mod srvlevel {
         // ports may be scarce when many checks run at once: retry
         let mut tries = 0;
         let (handle, addr, mut srv_done) = loop {
-            let (w, t, sv, l) = (sc.workers, sc.timeout, served.clone(), sc.lst);
-            match host_server(move || server_on(l, w, t, false, sv, nonce)) {
+            let (w, t, sv, l, se) = (sc.workers, sc.timeout, served.clone(), sc.lst, sc.sysexit);
+            match host_server(move || server_on(l, w, t, false, se, sv, nonce)) {
                 Ok(x) => break x,
                 Err(e) if is_port_error(&e) && tries < 40 => {
                     tries += 1;
@@ -1444,18 +1467,33 @@ mod srvlevel {
             None
         } else {
             let (h2, seconds, gap2) = (handle.clone(), sc.second.clone(), sc.gap2);
+            // gap2 = 0: back to back — called right here, with no await since the first call: all the commands can be in the
+            // channel before the command loop takes the first
+            let mut now: Vec<(bool, u128, _)> = vec![];
+            if gap2 == 0 {
+                for g2 in &seconds {
+                    let f = h2.stop(*g2);
+                    now.push((*g2, t0.elapsed().as_millis(), f));
+                }
+            }
             Some(tokio::spawn(async move {
                 let mut tasks = vec![];
-                for g2 in seconds {
-                    if gap2 > 0 {
-                        tokio::time::sleep(Duration::from_millis(gap2)).await;
-                    }
-                    let f = h2.stop(g2);
-                    let issued = t0.elapsed().as_millis();
+                for (g2, issued, f) in now {
                     tasks.push((g2, issued, tokio::spawn(async move {
                         f.await;
                         t0.elapsed().as_millis()
                     })));
+                }
+                if gap2 > 0 {
+                    for g2 in seconds {
+                        tokio::time::sleep(Duration::from_millis(gap2)).await;
+                        let f = h2.stop(g2);
+                        let issued = t0.elapsed().as_millis();
+                        tasks.push((g2, issued, tokio::spawn(async move {
+                            f.await;
+                            t0.elapsed().as_millis()
+                        })));
+                    }
                 }
                 tasks
             }))
@@ -1490,8 +1528,13 @@ mod srvlevel {
         // (a time-out above 10 s comes with connections that all end: the last one's end, rounded up to a tick, bounds the wait)
         let by_holds: Option<u128> = sc.holds.iter().map(|h| h.map(|x| x as u128)).try_fold(0u128, |m, h| h.map(|x| m.max(x))).map(|m| (m / 1000 + 2) * 1000);
         let cap = Duration::from_millis((by_holds.map_or(bound, |b| b.min(bound)).min(60_000) + 5500) as u64);
+        // Ok(Ok): the Server future resolved; Ok(Err): the thread that ran it died — the future panicked instead of resolving
+        let mut server_panicked = false;
         let t_server = match tokio::time::timeout(cap, &mut srv_done).await {
-            Ok(_) => Some(t0.elapsed().as_millis()),
+            Ok(r) => {
+                server_panicked = r.is_err();
+                Some(t0.elapsed().as_millis())
+            }
             Err(_) => None,
         };
         let t_stop = match stop_task {
@@ -1517,7 +1560,7 @@ mod srvlevel {
                 _ => sc.second.iter().map(|g2| (*g2, 0, None)).collect(),
             },
         };
-        out.server = if t_server.is_some() { "resolved" } else { "never" };
+        out.server = if server_panicked { "panicked" } else if t_server.is_some() { "resolved" } else { "never" };
         out.stop = if sc.dropfut { "dropped" } else if t_stop.is_some() { "resolved" } else { "never" };
         out.second = if t_seconds.is_empty() {
             "-"
@@ -1635,6 +1678,9 @@ mod srvlevel {
         if o.server == "never" {
             fails.push("the Server future did not resolve within its bound + 5 s".into());
         }
+        if o.server == "panicked" {
+            fails.push("the Server future panicked instead of resolving (the thread that awaited it died): after a stop it resolves — whatever else is in the command channel, with or without an actix System".into());
+        }
         if o.stop == "never" {
             fails.push("the stop() future did not resolve".into());
         }
@@ -1711,7 +1757,7 @@ mod srvlevel {
         // several repetitions: the worst outcome is reported
         let mut worst: Option<&Outcome> = None;
         for o in &outs {
-            let bad = o.setup.is_some() || !o.early.is_empty() || o.late || o.served_after || o.stop == "never" || o.server == "never" || o.second == "never" || o.late_stop == Some("never") || !o.left_open.is_empty();
+            let bad = o.setup.is_some() || !o.early.is_empty() || o.late || o.served_after || o.stop == "never" || o.server != "resolved" || o.second == "never" || o.late_stop == Some("never") || !o.left_open.is_empty();
             if bad || worst.is_none() {
                 worst = Some(o);
                 if bad {
@@ -1729,15 +1775,20 @@ mod srvlevel {
     }
 
     /// child process: a server with OS signals enabled; prints its port, exits when the server future resolves
-    pub fn sigchild(timeout: Option<u64>) {
+    pub fn sigchild(timeout: Option<u64>, plain_tokio: bool) {
         let served = Arc::new(AtomicUsize::new(0));
-        let sys = actix_rt::System::new();
-        sys.block_on(async move {
+        let fut = async move {
             let (srv, addr) = server(1, timeout, true, served, [0u8; 8]).expect("server");
             println!("{}", addr.port());
             std::io::stdout().flush().unwrap();
             let _ = srv.await;
-        });
+        };
+        // a panic of the Server future ends the process with the panic exit code (101)
+        if plain_tokio {
+            tokio::runtime::Builder::new_current_thread().enable_all().build().unwrap().block_on(fut);
+        } else {
+            actix_rt::System::new().block_on(fut);
+        }
         std::process::exit(0);
     }
 
@@ -1757,12 +1808,18 @@ mod srvlevel {
             Some(h) if h.len() == 1 => h[0],
             _ => return (line.to_string(), "bad-op".into(), vec![]),
         };
+        // `rt=tokio`: the server process runs a plain Tokio runtime (no actix System to stop after the shutdown)
+        let plain_tokio = match kv(&ws, "rt") {
+            None | Some("system") => false,
+            Some("tokio") => true,
+            _ => return (line.to_string(), "bad-op".into(), vec![]),
+        };
         let exe = match std::env::current_exe() {
             Ok(e) => e,
             Err(e) => return (line.to_string(), format!("setup-error {e}"), vec![]),
         };
         let mut child = match std::process::Command::new(exe)
-            .args(["sigchild", &timeout.map_or("default".to_string(), |t| t.to_string())])
+            .args(["sigchild", &timeout.map_or("default".to_string(), |t| t.to_string()), if plain_tokio { "tokio" } else { "system" }])
             .stdout(std::process::Stdio::piped())
             .stderr(std::process::Stdio::null())
             .spawn()
@@ -1813,6 +1870,7 @@ mod srvlevel {
         });
         let mut released = false;
         let mut exit_ms = None;
+        let mut exit_code: Option<i32> = Some(0);
         let mut c = Some(c);
         while t0.elapsed() < cap {
             if let Some(ms) = hold {
@@ -1821,8 +1879,9 @@ mod srvlevel {
                     released = true;
                 }
             }
-            if let Ok(Some(_)) = child.try_wait() {
+            if let Ok(Some(st)) = child.try_wait() {
                 exit_ms = Some(t0.elapsed().as_millis());
+                exit_code = st.code();
                 break;
             }
             std::thread::sleep(Duration::from_millis(10));
@@ -1852,7 +1911,19 @@ mod srvlevel {
                 }
             }
         }
-        (line.to_string(), format!("exit={} early={}", if exit_ms.is_some() { "ok" } else { "never" }, early as u8), fails)
+        let clean = exit_code == Some(0);
+        if exit_ms.is_some() && !clean {
+            fails.push(format!(
+                "SIG{signame}: the server process ended with {} instead of exiting cleanly: the Server future did not resolve (it panicked){}",
+                exit_code.map_or("a signal".to_string(), |c| format!("exit code {c}")),
+                if plain_tokio { " — on a plain Tokio runtime there is no actix System to stop after the shutdown" } else { "" }
+            ));
+        }
+        (
+            line.to_string(),
+            format!("exit={} early={}", if exit_ms.is_none() { "never".to_string() } else if clean { "ok".to_string() } else { exit_code.map_or("signal".to_string(), |c| format!("code{c}")) }, early as u8),
+            fails,
+        )
     }
 
     // ---------------------------------------------------------------------------------------------
@@ -2254,6 +2325,12 @@ mod srvlevel {
         // signals as well and still receives the fault reports and stops;
         // `pausedrep=1` (limit=1): the replacement of a dead worker comes up while the server is paused; after resume it is in
         // the rotation (one held connection per worker)
+        // `sys=1`: the server is hosted under an actix System (its workers run on Arbiters) instead of a plain Tokio runtime
+        let under_system = match kv(&ws, "sys") {
+            None => false,
+            Some("1") => true,
+            _ => return (line.to_string(), "bad-op".into(), vec![]),
+        };
         let signals = match kv(&ws, "signals") {
             None => false,
             Some("1") => true,
@@ -2293,7 +2370,7 @@ mod srvlevel {
                 busy: tokio::sync::Notify::new(),
             });
             let sh = shared.clone();
-            let (handle, addr, mut srv_done, drop_srv) = match host_server_droppable(move || {
+            let (handle, addr, mut srv_done, drop_srv) = match host_server_droppable_sys(under_system, move || {
                 let lst = std::net::TcpListener::bind("127.0.0.1:0")?;
                 let addr = lst.local_addr()?;
                 {
@@ -3383,9 +3460,17 @@ mod gen {
             writeln!(w, "fault fg signals=1").unwrap();
             // the replacement comes up while the server is paused and is in the rotation after resume
             writeln!(w, "fault fz limit=1 pausedrep=1").unwrap();
+            // the same under an actix System (workers on Arbiters): a worker that dies saturated takes its arbiter — and the
+            // connections on it — with it; that is how it is found
+            writeln!(w, "fault fhs workers=1 limit=1 kill=ready hold=1 sys=1").unwrap();
+            writeln!(w, "fault f0s sys=1").unwrap();
             if thorough {
                 writeln!(w, "fault fg2 signals=1 faults=2 pair=1 limit=1").unwrap();
                 writeln!(w, "fault fg3 signals=1 stop=1").unwrap();
+                writeln!(w, "fault fs1 sys=1 kill=restart").unwrap();
+                writeln!(w, "fault fs2 sys=1 limit=1 faults=2 pair=1").unwrap();
+                writeln!(w, "fault fs3 sys=1 stop=1").unwrap();
+                writeln!(w, "fault fs4 sys=1 limit=1 sat=1").unwrap();
                 writeln!(w, "fault fk2 kill=ready").unwrap();
                 writeln!(w, "fault fk3 workers=1 kill=restart").unwrap();
                 writeln!(w, "fault fk4 kill=restart faults=2").unwrap();
@@ -3538,6 +3623,11 @@ mod gen {
             // overlapping stops: the later ones are issued when the first has been taken off the channel; every future waits
             srv(&mut *w, "workers=1 timeout=5 mode=g holds=1500 second=g,f gap2=300");
             srv(&mut *w, "workers=2 timeout=2 mode=g holds=n,300 second=f,g gap2=400");
+            // system_exit() on a plain Tokio runtime (there is no actix System to stop): the Server future resolves all the same
+            srv(&mut *w, "workers=1 timeout=1 mode=g holds=300 sysexit=1");
+            srv(&mut *w, "workers=2 timeout=5 mode=f holds=n sysexit=1 second=g");
+            // stops called back to back (all in the channel before the command loop takes the first), the first future dropped
+            srv(&mut *w, "workers=1 timeout=2 mode=g holds=300 second=g,f drop=1");
             // "never force": a time-out no clock can reach — the stop completes when the connection ends, not before, and
             // nothing overflows on the way
             srv(&mut *w, "workers=1 timeout=max mode=g holds=1200");
@@ -3553,6 +3643,9 @@ mod gen {
             // the default configuration (no shutdown_timeout call): 30 s, not less — the client ends its connection after 4.5 s
             srv(&mut *w, "workers=1 timeout=default mode=g holds=4500");
             writeln!(w, "sig d0 sig=term timeout=default hold=4500").unwrap();
+            // real signals to a server process on a plain Tokio runtime: the process exits cleanly (the Server future resolves)
+            writeln!(w, "sig p0 sig=term timeout=2 hold=300 rt=tokio").unwrap();
+            writeln!(w, "sig p1 sig=int timeout=5 hold=n rt=tokio").unwrap();
             if thorough {
                 for holds in ["1300", "n", "300,1300"] {
                     for second in ["g", "f", "g,g,f", "f,f"] {
@@ -3617,10 +3710,13 @@ mod gen {
 fn main() {
     let argv: Vec<String> = std::env::args().collect();
     if argv.get(1).map(|s| s.as_str()) == Some("sigchild") {
-        srvlevel::sigchild(match argv.get(2).map(|s| s.as_str()) {
-            Some("default") => None,
-            t => Some(t.and_then(|t| t.parse().ok()).unwrap_or(1)),
-        });
+        srvlevel::sigchild(
+            match argv.get(2).map(|s| s.as_str()) {
+                Some("default") => None,
+                t => Some(t.and_then(|t| t.parse().ok()).unwrap_or(1)),
+            },
+            argv.get(3).map(|s| s.as_str()) == Some("tokio"),
+        );
         return;
     }
     if argv.get(1).map(|s| s.as_str()) == Some("scnchild") {
